@@ -160,8 +160,11 @@ def gen_plan(seed: int, tier: str) -> dict:
             db["broadcast_key"] = r.choice([None, None, bytes(r.randrange(256) for _ in range(32)).hex()])
         pairings.append({"alias": alias, "rec": rec, "db": db})
     change = r.choice(["add", "remove", "modify", "add", "none"])
+    # history of cache write-throughs on one pairing (every one is acknowledged when the call returns)
+    hist = [{"kind": r.choice(["state", "state", "key", "key_none", "config", "db", "all", "same"]), "state_num": r.choice([2, 3, 65535, r.randrange(65536)]),
+             "key": bytes(r.randrange(256) for _ in range(32)).hex(), "config_num": r.choice([2, 8, 65535]), "gen": r.randrange(10**9)} for _ in range(r.choice([1, 1, 2, 3, 5]))]
     extra_alias, extra_rec = gen_record(r, 99)
-    return {"pairings": pairings, "change": change, "extra": {"alias": extra_alias, "rec": extra_rec, "db": {"gen": r.randrange(10**9), "config_num": 3, "state_num": 5, "broadcast_key": None}},
+    return {"pairings": pairings, "change": change, "hist": hist, "hist_target": r.randrange(8), "extra": {"alias": extra_alias, "rec": extra_rec, "db": {"gen": r.randrange(10**9), "config_num": 3, "state_num": 5, "broadcast_key": None}},
             "path": r.choice(["/simfs/pairing.json", "/simfs/conf dir/homekit/pairings.json"]),
             "cache_garble": r.randrange(10**9), "ops": None, "points_per_op": 40 if tier == "quick" else 300, "pseed": r.randrange(10**9)}
 
@@ -421,6 +424,43 @@ def execute(plan: dict, ch: Chooser) -> dict:
                 ctx.obligations += 1
                 if got not in (old_state, new_state, None):
                     ctx.violate("cache-garbage", "", f"cache write-through {desc}: reloaded accessory state is neither the old one, the new one nor empty")
+        # ---------------- history of acknowledged write-throughs, then restart ---------------------------
+        with_db = [sp for sp in plan["pairings"] if sp["db"]]
+        if with_db and plan.get("hist"):
+            sp = with_db[plan.get("hist_target", 0) % len(with_db)]
+            c4, cache4 = do_cache2()
+            apply_dbs(c4, plan["pairings"])
+            tgt = c4.aliases[sp["alias"]]
+            cur = {"db": _db_of(sp["db"]), "config_num": sp["db"]["config_num"], "key": sp["db"].get("broadcast_key"), "state_num": sp["db"].get("state_num")}
+            kinds = []
+            for st in plan["hist"]:
+                k = st["kind"]
+                kinds.append(k)
+                if k in ("state", "all"):
+                    cur["state_num"] = st["state_num"]
+                if k in ("key", "all"):
+                    cur["key"] = st["key"]
+                if k == "key_none":
+                    cur["key"] = None
+                if k in ("config", "all"):
+                    cur["config_num"] = st["config_num"]
+                if k in ("db", "all"):
+                    cur["db"] = _db_of({"gen": st["gen"]})
+                tgt.restore_accessories_state(json.loads(json.dumps(cur["db"])), cur["config_num"], bytes.fromhex(cur["key"]) if cur["key"] else None, cur["state_num"])
+            want = _snapshot_state(tgt)
+            ctx.event("hist", kinds)
+            ctx.probe("write_through_histories")
+            c_r, cache_r = restart_and_load([snap1], "write-through history", f"({'+'.join(kinds)}, no crash)")
+            if c_r is not None:
+                p = c_r.aliases.get(sp["alias"])
+                got = _snapshot_state(p) if p is not None else "<pairing missing>"
+                ctx.obligations += 1
+                if got != want:
+                    field = "entity-map"
+                    if isinstance(got, dict) and isinstance(want, dict):
+                        field = next((k for k in want if got.get(k) != want[k]), "entity-map")
+                    ctx.violate("cache-write-through-lost", str(field), f"alias {sp['alias']!r}: after the acknowledged updates {kinds} and a restart, {field} differs from the last written state "
+                                                                      f"(want {str(want.get(field))[:40] if isinstance(want, dict) else want}, got {str(got.get(field))[:40] if isinstance(got, dict) else got})")
         # ---------------- garbled cache files (byte corruption that breaks JSON / UTF-8) -----------
         gr = random.Random(plan["cache_garble"])
         good = files1.get(str(cache_path), b"")
